@@ -159,6 +159,7 @@ func TestPerValueCap(t *testing.T) {
 		}()
 		nextID := 0
 		maxDistinctLive, diffArity := 0, false
+		sharedAtt, viaSharedMap := map[interface{}]interface{}{}, rapid.Bool().Draw(t, "callerReusesOneAttachmentMap")
 		enter := func(res string, args []interface{}, att map[interface{}]interface{}) {
 			expBlock := ""
 			var expVal int64
@@ -180,8 +181,19 @@ func TestPerValueCap(t *testing.T) {
 			if len(args) > 0 {
 				opts = append(opts, sentinel.WithArgs(args...))
 			}
-			for k, v := range att {
-				opts = append(opts, sentinel.WithAttachment(k, v))
+			if len(att) > 0 && viaSharedMap {
+				// the caller keeps ONE map, refills it for every call and hands it over with WithAttachments
+				for k := range sharedAtt {
+					delete(sharedAtt, k)
+				}
+				for k, v := range att {
+					sharedAtt[k] = v
+				}
+				opts = append(opts, sentinel.WithAttachments(sharedAtt))
+			} else {
+				for k, v := range att {
+					opts = append(opts, sentinel.WithAttachment(k, v))
+				}
 			}
 			e, blk := sentinel.Entry(res, opts...)
 			c.Op("Entry(%s args=%v att=%v) -> blocked=%v", res, args, att, blk != nil)
